@@ -5,6 +5,7 @@ CONSTANTS
   Vals = {1, 2}
   MaxOps = 12
   Depth = 12
+  Extras = TRUE
   HistOn = TRUE
   AddSizes = {1, 2, 15, 16, 17, 239, 256}
   RewindPoints <- RPGen
